@@ -10,6 +10,7 @@ value), C16-2.diff (`PluginNotFound.__init__` without `assert`), C20-1/2.diff (`
 and the C11 fix of `NamePart.__init__` (format letters lower-cased).
 -/
 import PybtexModel.Lemmas.Errors
+import PybtexModel.Lemmas.ErrorSources
 
 namespace Pybtex.Props
 open Pybtex Pybtex.Errors
@@ -88,13 +89,34 @@ theorem C16_render_filename_nonvacuous :
       = .ok ["ERROR: entry with key k has a duplicate title field".toList] := by
   decide +kernel
 
-/-- every error value belongs to one of the classes the model lists (the list the harness
-compares with the classes enumerated from the source) -/
-theorem C16_every_class_listed (e : Err) : e.className ∈ classNames := by
-  cases e with
-  | plain c _ _ => cases c <;> simp [Err.className, PlainClass.name, classNames]
-  | syntaxErr c _ _ _ => cases c <;> simp [Err.className, SyntaxClass.name, classNames]
-  | _ => simp [Err.className, classNames]
+/-- The list of classes the harness compares with the `PybtexError` subclasses found in the source
+is exactly the set of classes the model has values (hence a rendering) for: no listed class lacks
+a rendering, no rendered class is missing from the list. -/
+theorem C16_class_list_exact (n : String) : n ∈ classNames ↔ ∃ e : Err, e.className = n := by
+  constructor
+  · intro h
+    simp only [classNames, List.mem_cons, List.not_mem_nil, or_false] at h
+    rcases h with h | h | h | h | h | h | h | h | h | h | h | h | h | h | h <;> subst h
+    · exact ⟨.plain .pybtexError [] none, rfl⟩
+    · exact ⟨.plain .bibliographyDataError [] none, rfl⟩
+    · exact ⟨.plain .bibTeXError [] none, rfl⟩
+    · exact ⟨.plain .convertError [] none, rfl⟩
+    · exact ⟨.duplicateField [] [], rfl⟩
+    · exact ⟨.invalidNameString [], rfl⟩
+    · exact ⟨.pluginGroupNotFound [], rfl⟩
+    · exact ⟨.pluginNotFound [] [], rfl⟩
+    · exact ⟨.fieldIsMissing [] .none, rfl⟩
+    · exact ⟨.syntaxErr .pybtexSyntaxError [] none none, rfl⟩
+    · exact ⟨.syntaxErr .undefinedMacro [] none none, rfl⟩
+    · exact ⟨.syntaxErr .prematureEOF [] none none, rfl⟩
+    · exact ⟨.syntaxErr .unbalancedBrace [] none none, rfl⟩
+    · exact ⟨.tokenRequired [] none { kind := .scanner, text := [], start := none, lineno := none, pos := 0 }, rfl⟩
+    · exact ⟨.auxData [] none none none, rfl⟩
+  · rintro ⟨e, rfl⟩
+    cases e with
+    | plain c _ _ => cases c <;> simp [Err.className, PlainClass.name, classNames]
+    | syntaxErr c _ _ _ => cases c <;> simp [Err.className, SyntaxClass.name, classNames]
+    | _ => simp [Err.className, classNames]
 
 /-! ## the three reporting modes -/
 
@@ -178,7 +200,13 @@ theorem C16_exit_status_nonvacuous :
     (commandLine (State.init : State Nat) { reports := [1], fatal := some 5 }).2
       = ([(false, 1), (true, 5)], 1) := by decide
 
-/-! ## capture contexts -/
+/-! ## capture contexts
+
+Every theorem of this section is about histories in which contexts are left innermost first
+(`with`-statement discipline, LIFO): `Op.exit` / `Op.abort` leave the innermost open context, and
+`balanced` / `Spec.WellBracketed` describe such histories.  That is the quantifier of the property
+("every nesting/abort pattern").  Context managers driven by hand can be left in another order;
+then "leaving capture mode restores normal reporting" is FALSE: `C16_capture_nonLIFO_neg`. -/
 
 /-- Leaving capture contexts restores reporting.  For every history `ops` in which each exit
 (normal or by an exception) matches an enter and every context is closed at the end — any nesting,
@@ -190,7 +218,7 @@ contexts):
   context goes on collecting, and outside any context `captured_errors` is `None` again;
 * `strict` is what the `set_strict_mode` calls made it, `error_code` is unchanged unless a
   warning was printed (then 2). -/
-theorem C16_capture_restores (ops : List (Op E)) (hb : balanced ops = true) (c : Config E) :
+theorem C16_capture_restores (ops : List (Errors.Op E)) (hb : balanced ops = true) (c : Config E) :
     (run c ops).1.saved = c.saved ∧
     (run c ops).1.st.captured = extend c.st.captured (baseReports 0 ops) ∧
     (run c ops).1.st.strict = finalStrict c.st.strict ops ∧
@@ -203,14 +231,14 @@ theorem C16_capture_restores (ops : List (Op E)) (hb : balanced ops = true) (c :
   exact ⟨h1.2, h1.1, run_strict ops c, run_errorCode ops c⟩
 
 theorem C16_capture_restores_nonvacuous :
-    balanced ([.enter, .report 1, .enter, .report 2, .abort, .report 3, .exit] : List (Op Nat)) = true ∧
-    run Config.init ([.enter, .report 1, .enter, .report 2, .abort, .report 3, .exit] : List (Op Nat))
+    balanced ([.enter, .report 1, .enter, .report 2, .abort, .report 3, .exit] : List (Errors.Op Nat)) = true ∧
+    run Config.init ([.enter, .report 1, .enter, .report 2, .abort, .report 3, .exit] : List (Errors.Op Nat))
       = (Config.init, [.unit, .collected, .unit, .collected, .left (some [2]), .collected, .left (some [1, 3])]) := by
   decide
 
 /-- outside any capture context: after any pattern of nested / aborted contexts has unwound
 `captured_errors` is `None` -/
-theorem C16_capture_restores_outside (ops : List (Op E)) (hb : balanced ops = true) (c : Config E)
+theorem C16_capture_restores_outside (ops : List (Errors.Op E)) (hb : balanced ops = true) (c : Config E)
     (h : c.st.captured = none) : (run c ops).1.st.captured = none := by
   rw [(C16_capture_restores ops hb c).2.1, h]; rfl
 
@@ -218,7 +246,7 @@ theorem C16_capture_restores_outside (ops : List (Op E)) (hb : balanced ops = tr
 any balanced pattern of inner contexts the enclosing context has collected exactly the reports
 made directly in it, nothing was printed or raised meanwhile, `error_code` is untouched, and the
 next report is collected by the enclosing context too. -/
-theorem C16_capture_nested (ops : List (Op E)) (hb : balanced ops = true) (c : Config E)
+theorem C16_capture_nested (ops : List (Errors.Op E)) (hb : balanced ops = true) (c : Config E)
     (l : List E) (h : c.st.captured = some l) (e : E) :
     (run c ops).1.st.captured = some (l ++ baseReports 0 ops) ∧
     printedOf (run c ops).2 = [] ∧ raisedOf (run c ops).2 = [] ∧
@@ -240,8 +268,8 @@ theorem C16_capture_nested (ops : List (Op E)) (hb : balanced ops = true) (c : C
 /-- one context, in isolation: entering, running any balanced body and leaving — normally or by
 an exception — yields exactly the reports made directly in the body and puts `captured_errors`
 and the frames of the enclosing contexts back EXACTLY as they were on entry. -/
-theorem C16_capture_context (body : List (Op E)) (hb : balanced body = true) (c : Config E)
-    (close : Op E) (hc : close = .exit ∨ close = .abort) :
+theorem C16_capture_context (body : List (Errors.Op E)) (hb : balanced body = true) (c : Config E)
+    (close : Errors.Op E) (hc : close = .exit ∨ close = .abort) :
     (run c (.enter :: body ++ [close])).1.st.captured = c.st.captured ∧
     (run c (.enter :: body ++ [close])).1.saved = c.saved ∧
     (run c (.enter :: body ++ [close])).2.getLast? = some (.left (some (baseReports 0 body))) := by
@@ -259,7 +287,7 @@ theorem C16_capture_context (body : List (Op E)) (hb : balanced body = true) (c 
 /-- the reports made directly in the body of a context are determined by the body alone: what
 follows the matching exit does not matter (so `Spec.directBody` of the text after an `enter` is
 what `C16_capture_context` says the context yields) -/
-theorem C16_direct_body (body rest : List (Op E)) (hb : balanced body = true) (close : Op E)
+theorem C16_direct_body (body rest : List (Errors.Op E)) (hb : balanced body = true) (close : Errors.Op E)
     (hc : close = .exit ∨ close = .abort) :
     Spec.directBody (body ++ close :: rest) = baseReports 0 body := by
   have hd : depthAfter 0 body = some 0 := by simpa [balanced] using hb
@@ -269,18 +297,18 @@ theorem C16_direct_body (body rest : List (Op E)) (hb : balanced body = true) (c
 /-- nesting on a concrete history: inside an outer context an inner one is aborted; the outer
 context has its direct reports, goes on collecting, and yields them all when left -/
 theorem C16_capture_nested_nonvacuous :
-    balanced ([.enter, .report 2, .abort, .report 3] : List (Op Nat)) = true ∧
+    balanced ([.enter, .report 2, .abort, .report 3] : List (Errors.Op Nat)) = true ∧
     (run { st := { strict := true, errorCode := 0, captured := some [1] }, saved := [none] }
-        ([.enter, .report 2, .abort, .report 3] ++ [.report 4] : List (Op Nat))).1
+        ([.enter, .report 2, .abort, .report 3] ++ [.report 4] : List (Errors.Op Nat))).1
       = { st := { strict := true, errorCode := 0, captured := some [1, 3, 4] }, saved := [none] } ∧
-    (run Config.init ([.enter, .report 1, .enter, .report 2, .exit, .report 3] ++ [.abort] : List (Op Nat))).2.getLast?
+    (run Config.init ([.enter, .report 1, .enter, .report 2, .exit, .report 3] ++ [.abort] : List (Errors.Op Nat))).2.getLast?
       = some (.left (some [1, 3])) ∧
-    Spec.directBody ([.report 1, .enter, .report 2, .exit, .report 3] ++ .abort :: [.report 9] : List (Op Nat)) = [1, 3] := by
+    Spec.directBody ([.report 1, .enter, .report 2, .exit, .report 3] ++ .abort :: [.report 9] : List (Errors.Op Nat)) = [1, 3] := by
   decide
 
 /-- every history of the grammar satisfies the decidable hypothesis of `C16_capture_restores`
 (proved by induction over well-bracketed histories) -/
-theorem C16_wellBracketed_balanced (ops : List (Op E)) (h : Spec.WellBracketed ops) : balanced ops = true := by
+theorem C16_wellBracketed_balanced (ops : List (Errors.Op E)) (h : Spec.WellBracketed ops) : balanced ops = true := by
   have key : ∀ d, depthAfter d ops = some d := by
     induction h with
     | nil => intro d; rfl
@@ -303,11 +331,11 @@ theorem C16_wellBracketed_balanced (ops : List (Op E)) (h : Spec.WellBracketed o
   simp [balanced, key 0]
 
 theorem C16_wellBracketed_balanced_nonvacuous :
-    Spec.WellBracketed ([.report 1] ++ (.enter :: ([.report 2] ++ (.enter :: [] ++ [.abort])) ++ [.exit]) : List (Op Nat)) :=
+    Spec.WellBracketed ([.report 1] ++ (.enter :: ([.report 2] ++ (.enter :: [] ++ [.abort])) ++ [.exit]) : List (Errors.Op Nat)) :=
   .append _ _ (.report 1) (.context _ (.append _ _ (.report 2) (.aborted _ .nil)))
 
 /-- the decidable hypothesis and the grammar describe the same histories -/
-theorem C16_balanced_iff_wellBracketed (ops : List (Op E)) :
+theorem C16_balanced_iff_wellBracketed (ops : List (Errors.Op E)) :
     balanced ops = true ↔ Spec.WellBracketed ops :=
   ⟨fun h => balanced_wellBracketed ops.length ops (Nat.le_refl _) (by simpa [balanced] using h),
    C16_wellBracketed_balanced ops⟩
@@ -317,7 +345,7 @@ history that never leaves a context it did not enter (contexts may still be open
 each report does what `Spec.reportObs` says from the nesting depth and the strict flag alone:
 collected inside a context, raised outside in strict mode, printed outside in non-strict mode;
 and `error_code` ends as `Spec.finalCode` says. -/
-theorem C16_history_refines_spec (ops : List (Op E)) (c : Config E) (d' : Nat)
+theorem C16_history_refines_spec (ops : List (Errors.Op E)) (c : Config E) (d' : Nat)
     (h1 : c.st.captured = none) (h2 : c.saved = []) (hd : depthAfter 0 ops = some d') :
     reportsOnly (run c ops).2 = Spec.reportObs 0 c.st.strict ops ∧
     (run c ops).1.saved.length = d' ∧
@@ -329,8 +357,8 @@ theorem C16_history_refines_spec (ops : List (Op E)) (c : Config E) (d' : Nat)
   rw [run_errorCode, Spec.finalCode, ← this.1, printedOf_reportsOnly]
 
 theorem C16_history_refines_spec_nonvacuous :
-    depthAfter 0 ([.report 1, .enter, .report 2, .setStrict false, .exit, .report 3, .enter] : List (Op Nat)) = some 1 ∧
-    Spec.reportObs 0 true ([.report 1, .enter, .report 2, .setStrict false, .exit, .report 3, .enter] : List (Op Nat))
+    depthAfter 0 ([.report 1, .enter, .report 2, .setStrict false, .exit, .report 3, .enter] : List (Errors.Op Nat)) = some 1 ∧
+    Spec.reportObs 0 true ([.report 1, .enter, .report 2, .setStrict false, .exit, .report 3, .enter] : List (Errors.Op Nat))
       = [.raised 1, .collected, .printed 3] := by decide
 
 /-! ## error_code -/
@@ -338,7 +366,7 @@ theorem C16_history_refines_spec_nonvacuous :
 /-- `error_code` only ever goes from its value to 2 and never back: along every history (any
 operations, well-bracketed or not) it is unchanged or 2, it is 2 as soon as a warning has been
 printed, and a longer history never has a smaller code (for codes ≤ 2, i.e. always in pybtex). -/
-theorem C16_error_code_monotone (a b : List (Op E)) (c : Config E) :
+theorem C16_error_code_monotone (a b : List (Errors.Op E)) (c : Config E) :
     ((run c a).1.st.errorCode = c.st.errorCode ∨ (run c a).1.st.errorCode = 2) ∧
     (printedOf (run c a).2 ≠ [] → (run c a).1.st.errorCode = 2) ∧
     (c.st.errorCode ≤ 2 → (run c a).1.st.errorCode ≤ (run c (a ++ b)).1.st.errorCode ∧
@@ -359,8 +387,8 @@ theorem C16_error_code_monotone (a b : List (Op E)) (c : Config E) :
     split <;> split <;> omega
 
 theorem C16_error_code_monotone_nonvacuous :
-    (run Config.init ([.setStrict false, .report 1, .enter, .report 2, .exit] : List (Op Nat))).1.st.errorCode = 2 ∧
-    (run Config.init ([.setStrict false, .enter, .report 2, .exit] : List (Op Nat))).1.st.errorCode = 0 := by
+    (run Config.init ([.setStrict false, .report 1, .enter, .report 2, .exit] : List (Errors.Op Nat))).1.st.errorCode = 2 ∧
+    (run Config.init ([.setStrict false, .enter, .report 2, .exit] : List (Errors.Op Nat))).1.st.errorCode = 0 := by
   decide
 
 /-! ## location -/
@@ -438,5 +466,373 @@ theorem C16_no_foreign_exception_nonvacuous :
     checkFormatChars false "fF".toList = true ∧ namePartInit "fF".toList = some ('f', false) ∧
     checkFormatChars false "fg".toList = false ∧ checkFormatChars true "f".toList = false := by
   decide
+
+
+/-! ## context managers left in any order (outside the `with` discipline) -/
+
+/-- The LIFO assumption of the capture theorems is an embedding, not a change of model: a history
+of `with` blocks is the free-order history in which every exit leaves the most recently entered
+manager, and the free-order machine (`fstep`/`frun`: every open manager keeps the value it will put
+back in its own frame) does on it exactly what `run` does. -/
+theorem C16_capture_LIFO_embedding (ops : List (Errors.Op E)) (c : Config E) :
+    frun c (ops.map Errors.Op.toFree) = run c ops ∧ lifo (ops.map Errors.Op.toFree) = true := by
+  refine ⟨Errors.frun_toFree ops c, ?_⟩
+  induction ops with
+  | nil => rfl
+  | cons op ops ih => cases op <;> simp [Errors.Op.toFree, lifo, ih]
+
+/-- NOT LIFO: enter A, enter B, leave A, leave B.  Leaving A puts back `None` while B is still
+open (its reports are raised / printed), and leaving B puts back A's list: every context has been
+left but `captured_errors` is a list for ever — every later problem is silently swallowed, in
+strict and non-strict mode alike.  "Leaving capture mode always restores normal reporting" holds
+for `with` blocks only. -/
+theorem C16_capture_nonLIFO_neg :
+    let h : List (FOp Nat) := [.enter, .enter, .exitNth 1, .report 7, .exitNth 0, .report 8]
+    lifo h = false ∧
+    (frun (Config.init : Config Nat) h).1.saved = [] ∧
+    (frun (Config.init : Config Nat) h).1.st.captured = some [8] ∧
+    (frun (Config.init : Config Nat) h).2 = [.unit, .unit, .left (some []), .raised 7, .left none, .collected] := by
+  decide
+
+/-! ## the readers of user input: every exit is a listed pybtex error -/
+
+/-- `.bib` reader (model of C01/C10, `Bib.parseBib`): for EVERY text, mode, wanted-set, macro table
+and role list, each problem it reports and the error it raises (strict mode, or the nesting guard
+of `Person()`) is an exception object of one of eight `PybtexError` subclasses, all of them in
+`classNames`; nothing is lost when the run is read as a computation (`bibComp`); class and
+`str(error)` do not depend on what the reader model leaves out (file name, marker position). -/
+theorem C16_bib_reader_exits_listed (text : Str) (strict : Bool) (wanted : Option (List Str))
+    (macros0 : List (Str × Str)) (roles : List Str) (fn : Option Str) (ctx : CtxInfo) :
+    (∀ e ∈ (Bib.parseBib text strict wanted macros0 roles).1.errs,
+      ∃ x, ofBib fn ctx e = some x ∧ x.className ∈ bibClasses) ∧
+    (∀ e, (Bib.parseBib text strict wanted macros0 roles).2 = some e →
+      ∃ x, ofBib fn ctx e = some x ∧ x.className ∈ bibClasses) ∧
+    (bibComp fn ctx text wanted macros0 roles).reports.length
+      = (Bib.parseBib text false wanted macros0 roles).1.errs.length ∧
+    (∀ c ∈ bibClasses, c ∈ classNames) ∧
+    (∀ fn' ctx' e, (ofBib fn ctx e).map (fun x => (x.className, x.str))
+      = (ofBib fn' ctx' e).map (fun x => (x.className, x.str))) := by
+  obtain ⟨h1, h2⟩ := Errors.parseBib_noInternal text strict wanted macros0 roles
+  refine ⟨fun e he => Errors.ofBib_some fn ctx e (h1 e he), fun e he => Errors.ofBib_some fn ctx e (h2 e he),
+    ?_, by decide, fun fn' ctx' e => Errors.ofBib_view fn fn' ctx ctx' e⟩
+  apply Errors.filterMap_all_some
+  intro e he
+  obtain ⟨x, hx, _⟩ := Errors.ofBib_some fn ctx e ((Errors.parseBib_noInternal text false wanted macros0 roles).1 e he)
+  exact ⟨x, hx⟩
+
+theorem C16_bib_reader_exits_listed_nonvacuous :
+    (bibComp none { kind := .lowLevel, text := [], start := none, lineno := none, pos := 0 }
+        "@a{k, t = x, t = 1}\n@b{k, u}".toList).reports.map (fun x => (x.className, x.str))
+      = [("UndefinedMacro", "undefined string in line 1: x".toList),
+         ("DuplicateField", "entry with key k has a duplicate t field".toList),
+         ("TokenRequired", "syntax error in line 2: '=' expected".toList),
+         ("BibliographyDataError", "repeated bibliography entry: k".toList)] := by
+  decide +kernel
+
+/-- Mode independence of the `.bib` reader, NOT by construction of `Comp`: the reader model has its
+own strict mode (`handle_error` raises instead of appending).  What its strict run raises is what
+the abstract computation built from its continue-mode run says strict mode raises: the first
+problem of the continue-mode list, or — when that list is empty — the same final error or none.
+With `C16_mode_independent` for the computation: capture collects the continue-mode list,
+non-strict mode prints it, strict mode raises its head, for every text. -/
+theorem C16_bib_reader_mode_independent (text : Str) (wanted : Option (List Str))
+    (macros0 : List (Str × Str)) (roles : List Str) (fn : Option Str) (ctx : CtxInfo) :
+    bibStrictRaised fn ctx text wanted macros0 roles
+      = (Spec.modes (bibComp fn ctx text wanted macros0 roles)).strictRaises ∧
+    (exec (State.init : State Err) (bibComp fn ctx text wanted macros0 roles)).2.2
+      = bibStrictRaised fn ctx text wanted macros0 roles := by
+  have h := Errors.bibStrictRaised_eq fn ctx text wanted macros0 roles
+  refine ⟨h, ?_⟩
+  rw [h]
+  exact ((C16_mode_independent State.init (bibComp fn ctx text wanted macros0 roles)).2.2 rfl rfl).2.1
+
+theorem C16_bib_reader_mode_independent_nonvacuous :
+    (bibStrictRaised none { kind := .lowLevel, text := [], start := none, lineno := none, pos := 0 }
+        "@a{k, t = x, t = 1}\n@b{k, u}".toList).map (fun x => (x.className, x.str))
+      = some ("UndefinedMacro", "undefined string in line 1: x".toList) ∧
+    bibStrictRaised none { kind := .lowLevel, text := [], start := none, lineno := none, pos := 0 }
+        "@a{k, t = 1}".toList = none := by
+  decide +kernel
+
+/-- `.bst` parser (model of C15): whichever entry point reads the text (`parse_string`,
+`parse_stream`, `parse_file`), it returns the program or raises a `PrematureEOF`, a
+`TokenRequired` or the `PybtexSyntaxError` of an over-long integer literal — never the model-only outcomes; parsing reports nothing, so the run is the same
+computation in every mode. -/
+theorem C16_bst_parser_exits_listed (entry : BstEntry) (src : Str) (fn : Option Str) (ctx : CtxInfo) :
+    (∀ e, bstParse entry src = .error e → ∃ x, ofBst fn ctx e = some x ∧ x.className ∈ bstClasses) ∧
+    (bstComp fn ctx entry src).reports = [] ∧
+    ((bstComp fn ctx entry src).fatal = none ↔ ∃ p, bstParse entry src = .ok p) ∧
+    (∀ c ∈ bstClasses, c ∈ classNames) := by
+  refine ⟨fun e he => ?_, ?_, ?_, by decide⟩
+  · obtain ⟨h1, h2⟩ := Errors.bstParse_error entry src e he
+    exact Errors.ofBst_some fn ctx e h1 h2
+  · unfold bstComp; split <;> rfl
+  · unfold bstComp
+    cases hp : bstParse entry src with
+    | ok p => simp
+    | error e =>
+      obtain ⟨h1, h2⟩ := Errors.bstParse_error entry src e hp
+      obtain ⟨x, hx, _⟩ := Errors.ofBst_some fn ctx e h1 h2
+      simp [hx]
+
+theorem C16_bst_parser_exits_listed_nonvacuous :
+    (bstComp none { kind := .scanner, text := [], start := none, lineno := none, pos := 0 } .file
+        "READ\nBOGUS {x}".toList).fatal.map (fun x => (x.className, x.str))
+      = some ("TokenRequired", "syntax error in line 2: BST command expected".toList) ∧
+    (bstComp none { kind := .scanner, text := [], start := none, lineno := none, pos := 0 } .string
+        "FUNCTION {f} { #1 }".toList).fatal = none := by
+  decide +kernel
+
+/-- `.aux` reader (model of C20) over any file system in which inclusion from `top` is at most
+`fuel` files deep (`depthOk`, decidable; included files may be missing): every problem reported is
+an `AuxDataError` that renders exactly as the reader model says (`str`, context, file name — so
+`C16_render_total` applies to it), and the error that ends the reading, if any, is an
+`AuxDataError` or the `PybtexError` of a file that cannot be opened. -/
+theorem C16_aux_reader_exits_listed (fs : Aux.FS) (fuel : Nat) (top : Str)
+    (hd : Aux.depthOk fs fuel top = true) :
+    (∀ a, Aux.parse fs fuel top = .error a →
+      ∃ x, ofAuxFatal a.fatal = some x ∧ x.className ∈ auxClasses) ∧
+    (∀ r : Aux.Report, (ofAux r).className = "AuxDataError" ∧ (ofAux r).str = r.str ∧
+      (ofAux r).getContext = .ok r.getContext ∧ (ofAux r).getFilename = some r.file ∧ (ofAux r).WF = true) ∧
+    (auxComp fs fuel top).reports = (Aux.captured (Aux.parse fs fuel top)).map ofAux ∧
+    (∀ c ∈ auxClasses, c ∈ classNames) := by
+  refine ⟨fun a ha => ?_, fun r => ⟨rfl, Errors.ofAux_str r, Errors.ofAux_context r, rfl, rfl⟩, ?_, by decide⟩
+  · have h1 := Aux.parseFile_noFuel fs fuel top Aux.St.init true hd a ha
+    have h2 := (Aux.parseFile_good fs fuel Aux.St.init top true).1 a ha
+    exact Errors.ofAuxFatal_some a.fatal h1 h2
+  · cases h : Aux.parse fs fuel top <;> simp [auxComp, Aux.captured, h]
+
+theorem C16_aux_reader_exits_listed_nonvacuous :
+    Aux.depthOk (Aux.fsOf [("t.aux".toList, ["\\bibstyle{a}".toList, "\\bibstyle{b}".toList])]) 2 "t.aux".toList = true ∧
+    (auxComp (Aux.fsOf [("t.aux".toList, ["\\bibstyle{a}".toList, "\\bibstyle{b}".toList])]) 2 "t.aux".toList).reports.map
+        (fun x => formatErrorLines x warningPrefix)
+      = [.ok ["t.aux: \\bibstyle{b}".toList, "t.aux: ^^^^^^^^^^^^".toList,
+              "t.aux: WARNING: in line 2: illegal, another \\bibstyle command".toList]] ∧
+    (auxComp (Aux.fsOf [("t.aux".toList, ["\\bibstyle{a}".toList, "\\bibstyle{b}".toList])]) 2 "t.aux".toList).fatal.map
+        (fun x => (x.className, x.str))
+      = some ("AuxDataError", "found no \\bibdata command".toList) := by
+  decide +kernel
+
+/-! ## the real command lines -/
+
+/-- `--strict` on the command line of `pybtex`, `pybtex-convert`, `pybtex-format` (accepted
+options in any order and number, right number of arguments), from ANY module state outside a
+capture: "in strict mode the first problem raises" — the first problem is what ends the run: it is
+the only thing written to stderr, with the `ERROR: ` prefix, the exit status is 1 and `error_code`
+is untouched; an input without problems finishes with the status the interpreter had
+(`error_code`, 0 in a fresh process). -/
+theorem C16_main_strict_option (numArgs : Nat) (perr : E) (s : State E) (a : Argv) (c : Comp E)
+    (hacc : ∀ o ∈ a.opts, o = .strict ∨ o = .other) (hs : CliOpt.strict ∈ a.opts)
+    (hn : a.nargs = numArgs) (hc : s.captured = none) :
+    (cliMain numArgs perr s a c).2.1 =
+      (match (Spec.modes c).strictRaises with
+       | some e => [(true, e)]
+       | none => []) ∧
+    (cliMain numArgs perr s a c).2.2 =
+      (match (Spec.modes c).strictRaises with
+       | some _ => 1
+       | none => s.errorCode) ∧
+    (cliMain numArgs perr s a c).1 = { s with strict := true } := by
+  have key : ∀ (opts : List CliOpt) (t : State E), (∀ o ∈ opts, o = .strict ∨ o = .other) →
+      applyOpts perr t opts = ({ t with strict := (if CliOpt.strict ∈ opts then true else t.strict) }, none) := by
+    intro opts
+    induction opts with
+    | nil => intro t _; simp [applyOpts]
+    | cons o os ih =>
+      intro t h
+      have hos : ∀ o ∈ os, o = .strict ∨ o = .other := fun o ho => h o (by simp [ho])
+      rcases h o (by simp) with rfl | rfl
+      · rw [applyOpts, ih _ hos]; simp [setStrict]
+      · rw [applyOpts, ih _ hos]; simp
+  have hm := (C16_mode_independent ({ s with strict := true }) c).2.2 hc rfl
+  simp only [cliMain, key a.opts _ hacc, hs, if_true, hn, ne_eq, not_true_eq_false, if_false, setStrict]
+  obtain ⟨h1, h2, h3, _, _⟩ := hm
+  generalize exec { s with strict := true } c = r at h1 h2 h3
+  obtain ⟨r1, r2, r3⟩ := r
+  simp only at h1 h2 h3
+  subst h1 h2
+  cases (Spec.modes c).strictRaises <;> simp [h3]
+
+theorem C16_main_strict_option_nonvacuous :
+    (cliMain 2 (0 : Nat) State.init { opts := [.other, .strict], nargs := 2 } { reports := [7, 8], fatal := none }).2
+      = ([(true, 7)], 1) ∧
+    (cliMain 2 (0 : Nat) State.init { opts := [.strict], nargs := 2 } { reports := [], fatal := none }).2 = ([], 0) ∧
+    (cliMain 2 (0 : Nat) State.init { opts := [], nargs := 2 } { reports := [7, 8], fatal := none }).2
+      = ([(false, 7), (false, 8)], 2) := by decide
+
+/-- Without `--strict` `main` is the non-strict run of `C16_exit_status`, whatever `strict` was
+before (`main` resets it), and from ANY `error_code`: every problem is printed as a warning in
+order, a fatal error follows with `ERROR: `; the exit status is 1 for a fatal error, 2 as soon as
+one problem was reported, and otherwise what `error_code` was.  So problems ALWAYS make the status
+non-zero; "no problem ⇒ status 0" needs a fresh `error_code` (see `C16_exit_status_sticky_neg`).
+A command line that is not accepted never runs the computation and never ends with status 0,
+except `--help` / `--version`. -/
+theorem C16_main_exit_status (numArgs : Nat) (perr : E) (s : State E) (a : Argv) (c : Comp E)
+    (hc : s.captured = none) :
+    ((∀ o ∈ a.opts, o = .other) → a.nargs = numArgs →
+      cliMain numArgs perr s a c = commandLine s c ∧
+      (cliMain numArgs perr s a c).2.1 = c.reports.map (fun e => (false, e)) ++
+        (match c.fatal with
+         | some f => [(true, f)]
+         | none => []) ∧
+      (cliMain numArgs perr s a c).2.2 =
+        (match c.fatal with
+         | some _ => 1
+         | none => if c.reports.isEmpty then s.errorCode else 2)) ∧
+    ((∀ o ∈ a.opts, o ≠ .info) → (a.nargs ≠ numArgs ∨ CliOpt.rejected ∈ a.opts ∨ CliOpt.pluginError ∈ a.opts) →
+      (cliMain numArgs perr s a c).2.2 ≠ 0) := by
+  constructor
+  · intro hacc hn
+    have key : ∀ (opts : List CliOpt) (t : State E), (∀ o ∈ opts, o = .other) → applyOpts perr t opts = (t, none) := by
+      intro opts
+      induction opts with
+      | nil => intro t _; rfl
+      | cons o os ih =>
+        intro t h
+        rw [h o (by simp), applyOpts, ih t (fun o ho => h o (by simp [ho]))]
+    have h := (C16_mode_independent (setStrict s false) c).2.1 (by simp [setStrict, hc]) (by simp [setStrict])
+    have hp : ∀ l : List E, printedOf (l.map Obs.printed) = l := by
+      intro l
+      induction l with
+      | nil => rfl
+      | cons a l ih => simp [printedOf, ih]
+    have e1 : cliMain numArgs perr s a c = commandLine s c := by
+      simp only [cliMain, key a.opts _ hacc, hn, ne_eq, not_true_eq_false, if_false, commandLine]
+    refine ⟨e1, ?_, ?_⟩
+    · rw [e1]
+      simp only [commandLine]
+      rw [h]
+      cases hf : c.fatal <;> simp [Spec.modes, hp]
+    · rw [e1]
+      simp only [commandLine]
+      rw [h]
+      cases hf : c.fatal <;> simp [setStrict]
+  · intro hinfo hbad
+    have key : ∀ (opts : List CliOpt) (t : State E), (∀ o ∈ opts, o ≠ .info) →
+        ((applyOpts perr t opts).2 = none ∧ CliOpt.rejected ∉ opts ∧ CliOpt.pluginError ∉ opts) ∨
+        (applyOpts perr t opts).2 = some .usage ∨ (applyOpts perr t opts).2 = some (.raised perr) := by
+      intro opts
+      induction opts with
+      | nil => intro t _; left; simp [applyOpts]
+      | cons o os ih =>
+        intro t h
+        have hos : ∀ o ∈ os, o ≠ .info := fun o ho => h o (by simp [ho])
+        cases o with
+        | strict => rw [applyOpts]; rcases ih (setStrict t true) hos with ⟨h1, h2, h3⟩ | h1 | h1 <;> simp_all
+        | other => rw [applyOpts]; rcases ih t hos with ⟨h1, h2, h3⟩ | h1 | h1 <;> simp_all
+        | rejected => right; left; rfl
+        | info => exact absurd rfl (h .info (by simp))
+        | pluginError => right; right; rfl
+    rcases key a.opts (setStrict s false) hinfo with ⟨h1, h2, h3⟩ | h1 | h1
+    · have hn : a.nargs ≠ numArgs := by
+        rcases hbad with h | h | h
+        · exact h
+        · exact absurd h h2
+        · exact absurd h h3
+      generalize hg : applyOpts perr (setStrict s false) a.opts = r at h1
+      obtain ⟨r1, r2⟩ := r
+      simp only at h1
+      subst h1
+      simp [cliMain, hg, hn]
+    · generalize hg : applyOpts perr (setStrict s false) a.opts = r at h1
+      obtain ⟨r1, r2⟩ := r
+      simp only at h1
+      subst h1
+      simp [cliMain, hg]
+    · generalize hg : applyOpts perr (setStrict s false) a.opts = r at h1
+      obtain ⟨r1, r2⟩ := r
+      simp only at h1
+      subst h1
+      simp [cliMain, hg]
+
+theorem C16_main_exit_status_nonvacuous :
+    (cliMain 2 (0 : Nat) State.init { opts := [.other], nargs := 2 } { reports := [7], fatal := some 9 }).2
+      = ([(false, 7), (true, 9)], 1) ∧
+    (cliMain 2 (0 : Nat) State.init { opts := [], nargs := 1 } { reports := [], fatal := none }).2 = ([], 1) ∧
+    (cliMain 2 (0 : Nat) State.init { opts := [.strict, .rejected], nargs := 2 } { reports := [], fatal := none }).2 = ([], 2) ∧
+    (cliMain 2 (5 : Nat) State.init { opts := [.pluginError], nargs := 2 } { reports := [7], fatal := none }).2
+      = ([(true, 5)], 1) := by decide
+
+/-- `error_code` is never cleared: a second command line run in the same interpreter after a run
+with warnings ends with status 2 although its own input has no problem ("status 0 iff nothing was
+reported" holds from a fresh module state only — `C16_exit_status`, hypothesis `errorCode = 0`).
+`strict`, on the contrary, does not leak: every `main` resets it first. -/
+theorem C16_exit_status_sticky_neg :
+    (cliRuns 2 (0 : Nat) State.init
+      [({ opts := [], nargs := 2 }, { reports := [7], fatal := none }),
+       ({ opts := [], nargs := 2 }, { reports := [], fatal := none })]).2 = [([(false, 7)], 2), ([], 2)] ∧
+    (cliRuns 2 (0 : Nat) State.init
+      [({ opts := [.strict], nargs := 2 }, { reports := [], fatal := none }),
+       ({ opts := [], nargs := 2 }, { reports := [7], fatal := none })]).2 = [([], 0), ([(false, 7)], 2)] := by
+  decide
+
+/-! ## runs of the BibTeX engine -/
+
+/-- How a run of the BibTeX engine ends, by the interpreter model of C03 on the lazily parsed
+program (`bstRun`): the end is classified as a non-pybtex exception (`foreign`) ONLY where that
+model says the Python code raises one (`IErr.internal`: ill-typed operands, commands out of
+order — the recorded finding C16-bst-illformed-program), as unknown ONLY when the model's fuel
+runs out; a `.bst` syntax error is the error of `Bst.parseFile` (C15 model), a `PrematureEOF`, a
+`TokenRequired` or a `PybtexSyntaxError`; a finished run has a program that parses completely.  Everything else is a
+`BibTeXError` or a `PybtexSyntaxError` subclass raised by the interpreter. -/
+theorem C16_bst_run_end_partial (fn : Option Str) (ctx : CtxInfo) (fuel : Nat) (bst : Str) (inp : Interp.Input) :
+    ((bstRun fn ctx fuel bst inp).2 = .finished →
+      Bst.parseFile bst = .ok (bstFilePrefix bst).1 ∧ ∃ o, Interp.run fuel (bstFilePrefix bst).1 inp = .ok o) ∧
+    (∀ x, (bstRun fn ctx fuel bst inp).2 = .bstSyntax x →
+      x.className ∈ bstClasses ∧ ∃ e, Bst.parseFile bst = .error e ∧ ofBst fn ctx e = some x) ∧
+    (∀ w, (bstRun fn ctx fuel bst inp).2 = .foreign w →
+      ∃ l, Interp.run fuel (bstFilePrefix bst).1 inp = .error (.internal w, l)) ∧
+    ((bstRun fn ctx fuel bst inp).2 = .unknown →
+      ∃ l, Interp.run fuel (bstFilePrefix bst).1 inp = .error (.outOfFuel, l)) := by
+  have hpf := Errors.parseFile_eq_prefix bst
+  unfold bstRun
+  generalize hpre : bstFilePrefix bst = pre at hpf
+  obtain ⟨prog, oe⟩ := pre
+  simp only
+  cases hrun : Interp.run fuel prog inp with
+  | ok o =>
+    cases oe with
+    | none => simp at hpf; simp [hpf]
+    | some e =>
+      simp only at hpf
+      obtain ⟨h1, h2⟩ := Errors.bstParse_error .file bst e hpf
+      obtain ⟨x, hx, hc⟩ := Errors.ofBst_some fn ctx e h1 h2
+      simp only [hx]
+      refine ⟨by simp, ?_, by simp, by simp⟩
+      intro y hy
+      simp at hy
+      subst hy
+      exact ⟨hc, e, hpf, hx⟩
+  | error p =>
+    obtain ⟨ie, l⟩ := p
+    cases ie <;> simp
+
+theorem C16_bst_run_end_partial_nonvacuous :
+    (bstRun none { kind := .scanner, text := [], start := none, lineno := none, pos := 0 } 100
+        "FUNCTION {f} { \"w\" warning$ }\nEXECUTE {f}\n".toList { bibTexts := [], citations := [] }).1.map
+          (fun l => l.map fun x => (x.className, x.str)) = some [("BibTeXError", "w".toList)] ∧
+    (bstRun none { kind := .scanner, text := [], start := none, lineno := none, pos := 0 } 100
+        "FUNCTION {f} { \"w\" warning$ }\nEXECUTE {f}\n".toList { bibTexts := [], citations := [] }).2 = .finished ∧
+    (bstRun none { kind := .scanner, text := [], start := none, lineno := none, pos := 0 } 100
+        "FUNCTION {f} { pop$ }\nEXECUTE {f}\nBOGUS".toList { bibTexts := [], citations := [] }).2
+      = .bibtexError "pop from empty stack".toList := by
+  decide +kernel
+
+/-- The recorded finding: `.bst` programs for which the BibTeX engine has no pybtex outcome.  A
+built-in applied to an operand of the wrong type, an entry-dependent function outside `ITERATE`,
+`ITERATE` of an undefined name: the Python code raises `TypeError` / `AttributeError` / `KeyError`
+there (the C03 model's `IErr.internal`), so "every problem in a .bst file is reported as a pybtex
+error" is FALSE of such programs. -/
+theorem C16_bst_run_foreign_neg :
+    (bstRun none { kind := .scanner, text := [], start := none, lineno := none, pos := 0 } 100
+        "FUNCTION {f} { \"a\" #1 + }\nEXECUTE {f}\n".toList { bibTexts := [], citations := [] }).2
+      = .foreign "TypeError: +" ∧
+    (bstRun none { kind := .scanner, text := [], start := none, lineno := none, pos := 0 } 100
+        "EXECUTE {cite$}\n".toList { bibTexts := [], citations := [] }).2
+      = .foreign "AttributeError: current_entry_key" ∧
+    (bstRun none { kind := .scanner, text := [], start := none, lineno := none, pos := 0 } 100
+        "ITERATE {nofn}\n".toList { bibTexts := [], citations := [] }).2
+      = .foreign "KeyError: ITERATE function" := by
+  decide +kernel
 
 end Pybtex.Props
